@@ -23,11 +23,9 @@ Lemma xml_checksum_refuted_mixed : f12_c <> f12_d /\ j2 f12_c = j2 f12_d.
 Proof. split; [discriminate|vm_compute; reflexivity]. Qed.
 
 (* ---- flat formats (csv, csv2 columns, fixed-length, fixedlength2 columns, EDI elements without
-   components): a record is an element whose children are elements with one text child ----------- *)
-Definition flat_field (nv : bytes * bytes) : tree :=
-  T ElementNode (fst nv) FNone [T TextNode (snd nv) FNone []].
-Definition flat_rec (rname : bytes) (fields : list (bytes * bytes)) : tree :=
-  T ElementNode rname FNone (map flat_field fields).
+   components): a record is a node (element; document node for the old csv reader) whose children
+   are elements with one text child - Model/Pipeline.v flat_rec; the harness checks on every flat
+   raw record that it has this shape (check_c15, C15Flat) ------------------------------------------ *)
 Definition flat_obj (fields : list (bytes * bytes)) : list (bytes * jv) :=
   map (fun nv => (fst nv, JStr (snd nv))) fields.
 
@@ -74,16 +72,16 @@ Lemma flat_elem_names fields :
   map j2_name (filter is_elem (map flat_field fields)) = map fst fields.
 Proof. induction fields as [|[n v] f IH]; simpl; [reflexivity|]. now rewrite IH. Qed.
 
-Lemma flat_is_child_array r fields fields' :
+Lemma flat_is_child_array rty r fields fields' :
   map fst fields = map fst fields' ->
-  is_child_array (flat_rec r fields) = is_child_array (flat_rec r fields').
+  is_child_array (flat_rec rty r fields) = is_child_array (flat_rec rty r fields').
 Proof.
   intros E. unfold is_child_array, flat_rec. simpl. now rewrite !flat_elem_names, E.
 Qed.
 
-Theorem j2_flat r fields :
-  NoDup (map fst fields) -> is_child_array (flat_rec r fields) = false ->
-  j2 (flat_rec r fields) = JObj (flat_obj fields).
+Theorem j2_flat rty r fields :
+  NoDup (map fst fields) -> is_child_array (flat_rec rty r fields) = false ->
+  j2 (flat_rec rty r fields) = JObj (flat_obj fields).
 Proof.
   intros Hnd Ha. unfold flat_rec in *.
   cbn [j2]. unfold is_child_text. cbn [t_kids]. rewrite flat_no_text. cbn [andb].
@@ -91,8 +89,8 @@ Proof.
 Qed.
 
 (* with at least two distinct column names the record is never taken for an array *)
-Lemma flat_not_array r fields :
-  NoDup (map fst fields) -> 2 <= length fields -> is_child_array (flat_rec r fields) = false.
+Lemma flat_not_array rty r fields :
+  NoDup (map fst fields) -> 2 <= length fields -> is_child_array (flat_rec rty r fields) = false.
 Proof.
   intros Hnd Hl. unfold is_child_array, flat_rec. simpl. rewrite flat_elem_names.
   destruct fields as [|[n1 v1] [|[n2 v2] rest]]; simpl in *; try lia.
@@ -117,10 +115,10 @@ Proof.
 Qed.
 
 (* different ingested values => different canon, for the flat formats *)
-Theorem canon_injective_flat r names vals vals' :
+Theorem canon_injective_flat rty r names vals vals' :
   NoDup names -> 2 <= length names ->
   length vals = length names -> length vals' = length names ->
-  j2 (flat_rec r (combine names vals)) = j2 (flat_rec r (combine names vals')) -> vals = vals'.
+  j2 (flat_rec rty r (combine names vals)) = j2 (flat_rec rty r (combine names vals')) -> vals = vals'.
 Proof.
   intros Hnd Hl H1 H2 E.
   assert (Hn : map fst (combine names vals) = names) by now apply map_fst_combine.
@@ -143,13 +141,13 @@ Section Checksum.
 
   Definition checksum (t : tree) : bytes := H (enc (j2 t)).
 
-  Theorem checksum_injective_flat r names vals vals' :
+  Theorem checksum_injective_flat rty r names vals vals' :
     NoDup names -> 2 <= length names ->
     length vals = length names -> length vals' = length names ->
-    checksum (flat_rec r (combine names vals)) = checksum (flat_rec r (combine names vals')) ->
+    checksum (flat_rec rty r (combine names vals)) = checksum (flat_rec rty r (combine names vals')) ->
     vals = vals'.
   Proof.
-    intros Hnd Hl H1 H2 E. apply (canon_injective_flat r names); try assumption.
+    intros Hnd Hl H1 H2 E. apply (canon_injective_flat rty r names); try assumption.
     apply enc_injective, H_injective, E.
   Qed.
 
